@@ -700,6 +700,9 @@ func (g *graph) compile(ctx context.Context, opt *graphCompileOptions) (*composa
 		if err != nil {
 			return nil, err
 		}
+		if r.isPassthrough && r.genericHelper == nil {
+			return nil, fmt.Errorf("passthrough node[%s]'s type cannot be inferred: it is not connected", name)
+		}
 
 		chCall := &chanCall{
 			action:   r,
